@@ -400,8 +400,13 @@ def cli_check(ctx, directory, path, text, case, finding):
         if proc.returncode != 0:
             ctx.witness("cli_failed", case, f"exit {proc.returncode}: {proc.stderr[-300:]}", finding=finding)
             return
-        with open(out_path, encoding="utf8") as handle:
-            written = handle.read()
+        try:
+            with open(out_path, encoding="utf8") as handle:
+                written = handle.read()
+        except OSError:
+            ctx.witness("cli_output_differs", case, "`python -m statham --output` exited 0 but wrote no file",
+                        finding=finding)
+            return
         if written != text:
             ctx.witness("cli_output_differs", case, "`python -m statham` wrote a different module than main()",
                         finding=finding)
